@@ -93,6 +93,12 @@ def apply_ops(structure, ops):
         elif k == "scale":
             f = op["f"]
             s = rebuild(s, coord_fn=lambda ri, p: p * f)
+        elif k == "first-n":
+            # the first n residues only (n = 0: an empty structure)
+            s = rebuild(s, keep_res=lambda ri, r, n=op["n"]: ri < n)
+        elif k == "backbone-only":
+            # sugar-phosphate backbone without any base atom (coarse-grained / partially built models)
+            s = rebuild(s, atom_filter=lambda ri, r, a: a.name.endswith("'") or a.name in ("P", "OP1", "OP2", "OP3"))
         elif k == "thin-res":
             rng = random.Random(op["seed"])
             drop = {i for i in range(len(s.residues)) if rng.random() < op["frac"]}
